@@ -555,7 +555,12 @@ func Run(r *core.Run) {
 		go func() {
 			defer wg.Done()
 			runMC(r, pickS(r, "CssMC.quick.cfg", "CssMC.thorough.cfg"), 3, func(c *Case) {
-				c.Family = "mc-casc"
+				var id []interface{}
+				json.Unmarshal(c.ID, &id)
+				c.Family = "mc"
+				if len(id) > 0 {
+					c.Family = fmt.Sprintf("mc-%v", id[0])
+				}
 				mu.Lock()
 				mcCases = append(mcCases, c)
 				mu.Unlock()
@@ -603,11 +608,22 @@ func Run(r *core.Run) {
 		c.Family = strings.SplitN(s.ID, "-", 2)[0]
 		cases = append(cases, c)
 	}
-	if !r.Thorough() && len(mcCases) > 300 {
-		// a seeded slice of the enumerated family
+	if !r.Thorough() {
+		// the value grid entirely, a seeded slice of the enumerated cascade family
 		rng := rand.New(rand.NewSource(r.Seed + 7))
-		rng.Shuffle(len(mcCases), func(i, j int) { mcCases[i], mcCases[j] = mcCases[j], mcCases[i] })
-		mcCases = mcCases[:300]
+		var keep, casc []*Case
+		for _, c := range mcCases {
+			if c.Family == "mc-casc" {
+				casc = append(casc, c)
+			} else {
+				keep = append(keep, c)
+			}
+		}
+		rng.Shuffle(len(casc), func(i, j int) { casc[i], casc[j] = casc[j], casc[i] })
+		if len(casc) > 250 {
+			casc = casc[:250]
+		}
+		mcCases = append(keep, casc...)
 	}
 	cases = append(cases, mcCases...)
 	t0 = time.Now()
